@@ -50,7 +50,9 @@ Cfgs == <<
    \* 14: level counters (optional value mode): plain with an upper limit, and one that allows mixing increment and set
    C0(<<[A0(118, K_val, "level") EXCEPT !.checks = <<Ck("upper", 3, 0)>>], [A0(110, K_num, "level") EXCEPT !.mix = TRUE, !.init = 7], A0(97, K_al, "flag")>>, <<>>, TRUE),
    \* 15: multi-value vector ended by --endvalues, positional string
-   [C0(<<[A0(118, K_val, "vecint") EXCEPT !.multi = TRUE], A0(97, <<101, 110>>, "flag")>>, <<>>, TRUE) EXCEPT !.endvalues = TRUE]
+   [C0(<<[A0(118, K_val, "vecint") EXCEPT !.multi = TRUE], A0(97, <<101, 110>>, "flag")>>, <<>>, TRUE) EXCEPT !.endvalues = TRUE],
+   \* 16: multi-value string vector, a flag and a positional string: which argument gets a free value
+   C0(<<[A0(118, K_val, "vecstr") EXCEPT !.multi = TRUE], A0(97, K_al, "flag"), [A0(0, <<>>, "str") EXCEPT !.pos = TRUE, !.card = [t |-> "none", a |-> 0, b |-> 0]]>>, <<>>, TRUE)
 >>
 Sel == IF CfgSel = {} THEN 1..Len(Cfgs) ELSE CfgSel
 Cfg == Cfgs[ci]
